@@ -326,6 +326,38 @@ def _split_cond(c, truth):
     return [(c, truth)]
 
 
+def run_value_between_declare_define(rec, S):
+    """declare_variable(x) reserves the variable's slot (for a captured variable it emits EmptyBox), define_variable(x)
+    finishes it (FillBox: value on top, box below). The instruction(s) that produce the value therefore sit between
+    the two; hoisted in front of the declaration the sequence is `value; EmptyBox; FillBox` and the slot holds the
+    raw value where later GetBox/SetBox expect a box."""
+    R = rec.rule("F2.d-between", "in every Compiler method, between declare_variable(x) and the define_variable(x) that completes it, the value of x is produced (an instruction is emitted or an expression/function compiled): the pair must bracket the initialiser, because for a captured variable it brackets it with EmptyBox .. FillBox")
+    fns = compiler_fns(S)
+    QUIET = {"declare_variable", "define_variable", "identifier_constant", "string_constant", "make_constant", "record_field", "begin_scope", "end_scope", "error", "error_at"}
+    n = 0
+    for name, f in sorted(fns.items()):
+        evs = synq.events(f)
+        for i, ev in enumerate(evs):
+            if ev.kind != "call" or ev.name != "define_variable" or not ev.node.get("args"):
+                continue
+            nm = synq.src(ev.node["args"][0])
+            j = None
+            for k in range(i - 1, -1, -1):
+                if evs[k].kind == "call" and evs[k].name == "declare_variable" and evs[k].node.get("args") and synq.src(evs[k].node["args"][0]) == nm:
+                    j = k
+                    break
+            if j is None:
+                continue
+            n += 1
+            between = evs[j + 1:i]
+            produced = [e for e in between if e.kind == "op" or (e.kind == "call" and e.name in fns and e.name not in QUIET)]
+            ok = bool(produced)
+            rec.inst(R, "%s: value of %s produced between declare and define" % (name, nm[:30]), ok=ok, loc=L(COMPILER, ev.line), note=", ".join(e.name for e in produced)[:80])
+            if not ok:
+                rec.finding(R, "F2.d-between/%s/%s" % (name, re.sub(r"\W+", "_", nm)[:30]), "Compiler::%s emits nothing between declare_variable(%s) and define_variable(%s): the value was produced before the declaration, so for a captured variable the code is `value; EmptyBox; FillBox` - the slot keeps the raw value and the closure that captured it (and every later GetBox/SetBox) treats that value as a box" % (name, nm, nm), loc=L(COMPILER, ev.line), fn=name)
+    rec.floor(R, "declare/define pairs", n, 8)
+
+
 def run_known_class_receiver(rec, S):
     R = rec.rule("F2.f-recv", "property_get/property_set are given a class (which enables compile-time field offsets) only where the object on the stack is `self` itself: under `primary.is_self() && trailers.len() == 1`, the `is_self` flag of the first trailer, or the `@field` form")
     from ..facts import walk_expr
